@@ -627,6 +627,8 @@ def run(rep: common.Report):
     rep.assume("canonsort_keys: sorted() is assumed to return a stable ascending permutation (CPython); str order = code points (z3 str.<=); "
                "the declared order has no duplicate names; tuples compare lexicographically")
     rep.extra["solver_seconds_path_pruning"] = round(eng.solver_time, 3)
+    from vc.static import state as _state
+    rep.add(_state.obligation(PID, ('caselessdict',), Obligation, PROVED, UNDECIDED))
     rep.explanation = __doc__
     # assumed-contract cross-checks (a failure is a checker error, exit 3, never a violation)
     from vc.fin import upper_axioms, od_crosscheck
